@@ -78,29 +78,58 @@ class _Viol:
 
 # ------------------------------------------------------------------------------------------ merge oracle
 
-def _check_merge(fn_merge, u, u0, d, d0, viol, counts, tag):
+class _Pair:
+    """Lazily computed description of one (user, default) input: only needed when something is reported."""
+
+    def __init__(self, u0, d0, tag):
+        self.u0, self.d0, self.tag = u0, d0, tag
+        self._cls = self._size = self._txt = None
+
+    @property
+    def cls(self):
+        if self._cls is None:
+            self._cls = R.conflict_class(self.u0, self.d0)
+        return self._cls
+
+    @property
+    def size(self):
+        if self._size is None:
+            self._size = len(json.dumps(self.u0, default=repr)) + \
+                (len(json.dumps(self.d0, default=repr)) if self.tag == "merge" else 0)
+        return self._size
+
+    @property
+    def txt(self):
+        if self._txt is None:
+            self._txt = f"user={_js(self.u0)} default={_js(self.d0) if self.tag == 'merge' else '<packaged defaults>'}"
+        return self._txt
+
+
+def _check_merge(fn_merge, u, u0, d, d0, viol, counts, tag, expected=None):
     """One (user, default) pair through the real merge `fn_merge(u, d)` + the oracle.
-    u, d are the live objects handed to cij; u0, d0 pristine snapshots.  Returns the result or None."""
-    size = len(json.dumps(u0, default=repr)) + len(json.dumps(d0, default=repr))
-    ctx_txt = f"user={_js(u0)} default={_js(d0) if tag == 'merge' else '<packaged defaults>'}"
-    cls = R.conflict_class(u0, d0)
+    u, d are the live objects handed to cij; u0, d0 pristine snapshots; `expected` (optional) is
+    ref_merge(u0, d0), used as a fast path: a result identical to it needs no further analysis.
+    Returns the result or None."""
+    P = _Pair(u0, d0, tag)
     counts["calls"] += 1
     try:
         r = fn_merge(u, d)
     except Exception as e:
         counts["raises"] += 1
-        viol.add(f"c16:{tag}:raises:{cls}:{type(e).__name__}",
-                 f"{ctx_txt} raised {type(e).__name__}: {e}", size)
+        viol.add(f"c16:{tag}:raises:{P.cls}:{type(e).__name__}", f"{P.txt} raised {type(e).__name__}: {e}", P.size)
         r = None
     if not R.same(u, u0):
-        viol.add(f"c16:{tag}:mutates-user", f"{ctx_txt}: user dict is now {_js(u)}", size)
-    if not R.same(d, d0):
-        viol.add(f"c16:{tag}:mutates-default", f"{ctx_txt}: default dict is now {_js(d)}", size)
+        viol.add(f"c16:{tag}:mutates-user", f"{P.txt}: user dict is now {_js(u)}", P.size)
+    if d is not d0 and not R.same(d, d0):
+        viol.add(f"c16:{tag}:mutates-default", f"{P.txt}: default dict is now {_js(d)}", P.size)
     if r is None:
         return None
+    if expected is not None and R.same(r, expected):
+        counts["ok_exact"] += 1
+        return r
     diffs, info = R.compare(r, u0, d0)
     for kind, p, m in diffs:
-        viol.add(f"c16:{tag}:{kind}:depth{len(p)}:{cls}", f"{ctx_txt} result={_js(r)}: at {R.dotted(p)}: {m}", size)
+        viol.add(f"c16:{tag}:{kind}:depth{len(p)}:{P.cls}", f"{P.txt} result={_js(r)}: at {R.dotted(p)}: {m}", P.size)
     if diffs:
         counts["wrong"] += 1
     elif info.get("open_leafless_over_leaf"):
@@ -112,7 +141,7 @@ def _check_merge(fn_merge, u, u0, d, d0, viol, counts, tag):
     return r
 
 
-def _check_idempotent(fn_merge, r, d, d0, viol, counts, tag, ctx_txt, size):
+def _check_idempotent(fn_merge, r, d, d0, viol, counts, tag, P, how=""):
     if not isinstance(r, dict):
         return
     r0 = R.clone(r)
@@ -121,14 +150,14 @@ def _check_idempotent(fn_merge, r, d, d0, viol, counts, tag, ctx_txt, size):
         r2 = fn_merge(r, d)
     except Exception as e:
         viol.add(f"c16:{tag}:remerge-raises:{type(e).__name__}",
-                 f"{ctx_txt}: merging the result {_js(r0)} over the defaults again raised {type(e).__name__}: {e}", size)
+                 f"{P.txt}{how}: merging the result {_js(r0)} over the defaults again raised {type(e).__name__}: {e}", P.size)
         return
     if not R.same(r2, r0):
-        viol.add(f"c16:{tag}:not-idempotent", f"{ctx_txt}: merge(u,d)={_js(r0)} but merge(merge(u,d),d)={_js(r2)}", size)
+        viol.add(f"c16:{tag}:not-idempotent", f"{P.txt}{how}: merge(u,d)={_js(r0)} but merge(merge(u,d),d)={_js(r2)}", P.size)
     if not R.same(r, r0):
-        viol.add(f"c16:{tag}:mutates-user:on-remerge", f"{ctx_txt}: re-merge changed its first argument to {_js(r)}", size)
-    if not R.same(d, d0):
-        viol.add(f"c16:{tag}:mutates-default:on-remerge", f"{ctx_txt}: re-merge changed the defaults to {_js(d)}", size)
+        viol.add(f"c16:{tag}:mutates-user:on-remerge", f"{P.txt}{how}: re-merge changed its first argument to {_js(r)}", P.size)
+    if d is not d0 and not R.same(d, d0):
+        viol.add(f"c16:{tag}:mutates-default:on-remerge", f"{P.txt}{how}: re-merge changed the defaults to {_js(d)}", P.size)
 
 
 def _has_falsy_leaf(x):
@@ -144,25 +173,23 @@ def _run_merge(case):
     if _has_falsy_leaf(u0):
         counts["users_with_null_or_falsy_leaf"] += 1
     ukeys = set(u0)
-    for d0, _flat in space:
+    ul, _ue = R.flatten(u0)
+    for d0, (dl, _de) in space:
         d = R.clone(d0)
         counts["pairs"] += 1
-        if ukeys & set(d0):
+        if not ukeys.isdisjoint(d0):
             counts["pairs_sharing_a_key"] += 1
-        cls = R.conflict_class(u0, d0)
-        if cls != "no-type-conflict":
-            counts["pairs_with_type_conflict"] += 1
-        size = len(json.dumps(u0)) + len(json.dumps(d0))
-        r = _check_merge(update_config, u, u0, d, d0, viol, counts, "merge")
+        expected = R.unflatten(R.merge_leaves(ul, dl))
+        r = _check_merge(update_config, u, u0, d, d0, viol, counts, "merge", expected)
         if not R.same(u, u0):
             u = R.clone(u0)
         if not R.same(d, d0):
             d = R.clone(d0)
         if r is not None:
-            _check_idempotent(update_config, r, d, d0, viol, counts, "merge",
-                              f"user={_js(u0)} default={_js(d0)}", size)
+            P = _Pair(u0, d0, "merge")
+            _check_idempotent(update_config, r, d, d0, viol, counts, "merge", P)
             if not R.same(u, u0):     # r may alias sub-dicts of u
-                viol.add("c16:merge:mutates-user:on-remerge", f"user={_js(u0)} default={_js(d0)}: user now {_js(u)}", size)
+                viol.add("c16:merge:mutates-user:on-remerge", f"{P.txt}: user now {_js(u)}", P.size)
                 u = R.clone(u0)
     v = viol.out()
     outcome = "merge:" + ("ok" if not v else "+".join(sorted({x["sig"].split(":")[2] for x in v})))
@@ -201,17 +228,16 @@ def _check_apply_user(u0, viol, counts, extra_idem):
         return apply_default_config(x)
 
     counts["inputs"] += 1
-    size = len(json.dumps(u0, default=repr))
-    r = _check_merge(call, u, u0, D0, D0, viol, counts, "apply")
+    r = _check_merge(call, u, u0, D0, D0, viol, counts, "apply", R.ref_merge(u0, D0))
     if r is None:
         return
-    ctx_txt = f"user={_js(u0)} default=<packaged defaults>"
+    P = _Pair(u0, D0, "apply")
     d = R.clone(D0)
-    _check_idempotent(update_config, r, d, D0, viol, counts, "apply", ctx_txt + " (update_config(result, defaults))", size)
+    _check_idempotent(update_config, r, d, D0, viol, counts, "apply", P, " (update_config(result, defaults))")
     if extra_idem:
-        _check_idempotent(call, r, D0, D0, viol, counts, "apply", ctx_txt + " (apply_default_config(result))", size)
+        _check_idempotent(call, r, D0, D0, viol, counts, "apply", P, " (apply_default_config(result))")
     if not R.same(u, u0):
-        viol.add("c16:apply:mutates-user:on-remerge", f"{ctx_txt}: user now {_js(u)}", size)
+        viol.add("c16:apply:mutates-user:on-remerge", f"{P.txt}: user now {_js(u)}", P.size)
 
 
 def _masks_of(spec):
@@ -648,8 +674,8 @@ def explore(ctx):
     ctx.rule = (
         "merge: every (user, default) pair of small-scope dictionary spaces D(leaves, k) = all dictionaries over keys "
         "{a,b} with the given leaf values and nesting depth <= k, empty dictionaries included: both tiers "
-        "D({1,2,null,0,false,'',[]},2) x D({1,2,null},2) = 5184 x 400; thorough adds D({1,2},3) x D({1,2},2) and "
-        "D({1,null},3) x D({1,null},2) = 21609 x 144 each; null is an ordinary leaf value; one case = one user dict "
+        "D({1,2,null,0,false,'',[]},2) x D({1,null},2) = 5184 x 144; thorough adds the same users x D({1,2,null},2) "
+        "= 5184 x 400, D({1,2},3) x D({1,2},2) and D({1,null},3) x D({1,null},2) = 21609 x 144 each; null is an ordinary leaf value; one case = one user dict "
         "against all defaults of its space. apply: apply_default_config on sub-dictionaries (subsets of "
         "leaf paths) of each shipped settings file in three value variants (as shipped / every leaf changed to differ "
         "from the default / every leaf falsy) on a bounded set in both tiers (power set of elast leaves, <=3 kept or <=3 "
@@ -680,9 +706,9 @@ def explore(ctx):
         "reference defaults read with yaml.safe_load from $VERIF_REPO/cij/data/default/settings.yaml",
     ]
     # merge spaces: (user leaves, user depth, default leaves, default depth)
-    spaces = [(MERGE_USER_LEAVES, 2, MERGE_DEFAULT_LEAVES, 2)]
+    spaces = [(MERGE_USER_LEAVES, 2, [1, None], 2)]
     if not ctx.quick:
-        spaces += [([1, 2], 3, [1, 2], 2), ([1, None], 3, [1, None], 2)]
+        spaces += [(MERGE_USER_LEAVES, 2, MERGE_DEFAULT_LEAVES, 2), ([1, 2], 3, [1, 2], 2), ([1, None], 3, [1, None], 2)]
     mcases, minfo = [], []
     for ul, ud, dl, dd in spaces:
         users = R.dict_space(ud, leaves=tuple(ul))
